@@ -2,6 +2,7 @@
 
   store  <dir> <split> <overwrite> <marker> <plan-json> <which>   run one search that stores an entry, crashing per plan
   query  <dir> <split> <which> <cache_only>                       fresh process querying contraction <which>
+  store2 <dir> <split> <which>                                    two forked workers sharing one inherited object, one killed
 
 The crash plan is realised by wrappers installed in THIS process only
 (pathlib.Path.mkdir, builtins.open for files under <dir> opened for writing,
@@ -175,6 +176,52 @@ def main():
                 os._exit(9)
             raise
         print(json.dumps({"crashed": False, "ran": cls.ran, "complete": tree.is_complete()}))
+    elif mode == "store2":
+        # TWO workers forked from one process that built the optimizer object (they inherit it): worker B writes its entry
+        # completely and stops just before moving it into place; worker A then opens ITS temporary file for writing and is
+        # killed right after the open; B goes on.  With per-writer temporary names B's complete entry lands under the
+        # final name.
+        directory, split, which = sys.argv[2:5]
+        opt, cls = make_opt(directory, SPLIT[split], "False", False, "new")
+        inputs, output, size = CONS[which]
+        r_a, w_a = os.pipe()
+        r_b, w_b = os.pipe()
+        droot = os.path.realpath(directory)
+        pid_b = os.fork()
+        if pid_b == 0:
+            real_replace = os.replace
+
+            def replace(src, dst):
+                if os.path.realpath(str(dst)).startswith(droot + os.sep):
+                    os.write(w_b, b"x")
+                    os.read(r_a, 1)
+                return real_replace(src, dst)
+            os.replace = replace
+            try:
+                opt.search(inputs, output, size)
+            finally:
+                os.write(w_b, b"x")         # (never leave the other worker waiting)
+                os._exit(0)
+        pid_a = os.fork()
+        if pid_a == 0:
+            os.read(r_b, 1)
+            real_open = builtins.open
+
+            def open_(file, mode="r", *a, **k):
+                f = real_open(file, mode, *a, **k)
+                if "w" in mode and os.path.realpath(str(file)).startswith(droot + os.sep):
+                    os.write(w_a, b"x")
+                    os._exit(9)
+                return f
+            builtins.open = open_
+            try:
+                opt.search(inputs, output, size)
+            finally:
+                os.write(w_a, b"x")
+                os._exit(0)
+        _, st_a = os.waitpid(pid_a, 0)
+        _, st_b = os.waitpid(pid_b, 0)
+        print(json.dumps({"crashed": os.WEXITSTATUS(st_a) == 9, "a": os.WEXITSTATUS(st_a), "b": os.WEXITSTATUS(st_b)}))
     elif mode == "query":
         directory, split, which, cache_only = sys.argv[2:6]
         opt, cls = make_opt(directory, SPLIT[split], "False", cache_only == "True", "reader")
